@@ -9,7 +9,7 @@ out=seeded/REGRESSION.txt
 for d in seeded/*/; do
   name=$(basename $d)
   echo "$name" | grep -q -E "$pat" || continue
-  prop=$(python3 -c "import json;print(json.load(open('$d/meta.json'))['breaks_property'])")
+  prop=$(python3 -c "import json;m=json.load(open('$d/meta.json'));print(m.get('checked_by', m['breaks_property']))")
   if ! git -C /repo apply --check /verif/$d/patch.diff 2>/dev/null; then echo "$name $prop PATCH-DOES-NOT-APPLY (written against an older commit)" | tee -a $out; continue; fi
   git -C /repo apply /verif/$d/patch.diff
   t0=$(date +%s)
